@@ -1136,7 +1136,11 @@ func (d *DNSFilter) updatesLoop() {
 func (d *DNSFilter) periodicallyRefreshFilters(ivl time.Duration) (nextIvl time.Duration) {
 	const maxInterval = time.Hour
 
-	if d.conf.FiltersUpdateIntervalHours == 0 {
+	d.conf.filtersMu.RLock()
+	updIvl := d.conf.FiltersUpdateIntervalHours
+	d.conf.filtersMu.RUnlock()
+
+	if updIvl == 0 {
 		return ivl
 	}
 
